@@ -21,8 +21,8 @@ from .c20 import fresh_requirements, r_freshcopy
 
 MANIFEST = {
     "level": "other",
-    "technique": "static analysis: symbolic bound facts from clamp idioms (if v < E: v = E) on the symbolically evaluated root(), typestate of the Newton iterate against the loop-carried bracket, must-pass-through ordering in set(), range-refusal path rule, fresh-container analysis for the copy constructor",
-    "text": "Decides for every call (not sampled limits) that root() evaluates the interpolant only inside the table, that any accepted Newton iterate is checked against the current bracket (so the answer stays in [xl, xh]), that out-of-range and duplicated abscissae are refused before any table is computed, and that the shared lists of a copy are never mutated in place. Polynomial reproduction to 1e-9 and convergence of the iteration are numerical and not decided.",
+    "technique": "static analysis: symbolic bound facts from clamp idioms (if v < E: v = E) on the symbolically evaluated root(), typestate of the Newton iterate against the loop-carried bracket, must-pass-through ordering in set(), range-refusal path rule, fresh-container analysis for the copy constructor, exhaustive evaluation of the ordering routine on every weak ordering of the abscissae and of the duplicate test, partial evaluation of the conjunction helpers for every table size 3..9 (time axis and ordinates handed to the interpolant)",
+    "text": "Decides for every call (not sampled limits) that root() evaluates the interpolant only inside the table, that any accepted Newton iterate is checked against the current bracket (so the answer stays in [xl, xh]), that out-of-range and duplicated abscissae are refused before any table is computed, and that the shared lists of a copy are never mutated in place. The ordering step is shown to sort every ordering of the input points, and the conjunction helpers to tabulate the coordinate differences against n = -k..k with the middle used entry at n = 0 for every table size (even sizes lose their last entry). Polynomial reproduction to 1e-9 and convergence of the iteration are numerical and not decided.",
     "note": "Trusted: the clamp idioms enumerated in the checker (if v < m: v = m / if v > M: v = M and their <=, >= and min/max forms). Undecided: reproduction of polynomials and derivatives, convergence, sign-change existence.",
 }
 MOD = "Interpolation"
